@@ -57,8 +57,20 @@ def fromLoop : Nat → List Tok × Str × Str → List Tok × Str × Str
       fromLoop f (extractFrom ['<', '<', '<'] (extractFrom ['<'] st))
     else st
 
-/-- `Command::from_tokens` (types.rs:166-219) -/
-def fromTokens (ts : List Tok) : Except String Command :=
+/-- the pre-pass of `Command::from_tokens` (since `fix:` "`<file` … without a blank"): an unquoted token `<file` /
+`<<<word` is split into operator and operand -/
+def splitAttached : List Tok → List Tok
+  | [] => []
+  | (sep, text) :: rest =>
+    if sep = [] ∧ text.length > 3 ∧ text.take 3 = ['<', '<', '<'] then
+      ([], ['<', '<', '<']) :: ([], text.drop 3) :: splitAttached rest
+    else if sep = [] ∧ text.length > 1 ∧ text.take 1 = ['<'] ∧ text.take 2 ≠ ['<', '<'] then
+      ([], ['<']) :: ([], text.drop 1) :: splitAttached rest
+    else (sep, text) :: splitAttached rest
+
+/-- `Command::from_tokens` (types.rs:166-235) -/
+def fromTokens (ts0 : List Tok) : Except String Command :=
+  let ts := splitAttached ts0
   let (ts', ty, v) := fromLoop (ts.length + 1) (ts, [], [])
   match tokensToRedirections ts' with
   | .error e => .error e
